@@ -72,7 +72,7 @@ def walk(fb, name, found, n=3):
             if callee_matches(tt, "HashMap::insert", "HashMap::entry", "HashMap::remove"):
                 ev["inserts"].append((c.rsplit("::", 1)[-1], a0.tag, is_name(a[1]) if len(a) > 1 else None,
                                       a[2] is VALUE if len(a) > 2 else None))
-                return machine.none()
+                return machine.some(Tok("old-value", a0.tag)) if (len(a) > 1 and is_name(a[1]) and a0.tag in found) else machine.none()
             if callee_matches(tt, "Ref::map", "RefMut::map", "Ref::map_val") and len(a) > 1:
                 return mc.call_value(a[1], [a0])
         end = c.rsplit("::", 1)[-1]
@@ -106,7 +106,7 @@ def walk(fb, name, found, n=3):
             ev["stores"].append((target.tag, val is VALUE))
     mc = machine.Machine(fb, intercept=intercept, max_visits=n + 2, budget=60, on_store=on_store)
     try:
-        res = mc.run(f, [chain(n), NAME, VALUE])
+        res = mc.run(f, [chain(n), NAME, VALUE][:max(1, f.arg_count)] if f.arg_count <= 3 else [chain(n), NAME, VALUE] + [absint.UNKNOWN] * (f.arg_count - 3))
     except (absint.Stuck, absint.Loop) as e:
         return {"stuck": str(e), **ev}
     ev["panics"] = [e[1] + " in " + e[2] for e in mc.events if e[0] == "panic"]
@@ -143,6 +143,30 @@ def walk(fb, name, found, n=3):
         out["result"] = repr(res)
         out["result_binding"] = []
     return out
+
+
+def ancestor_writers(fb, n=3):
+    """every method of LexicalScope (whatever it is called) run on the chain F0 -> F1 -> F2 with the name bound in every subset of
+    frames: {method: [effects on a frame other than F0]} for those that write (insert / remove / store) a frame they were not
+    called on, and {method: why} for those that cannot be followed"""
+    writers, unfollowed = {}, {}
+    for f in fb.all("lib"):
+        if not f.name.startswith(SCOPE) or "{closure" in f.name or f.derived or f.name.count("::") != SCOPE.count("::"):
+            continue
+        if f.arg_count < 1 or "LexicalScope" not in (f.local_ty(1) or ""):
+            continue
+        meth = f.name[len(SCOPE):]
+        for found in subsets(n):
+            r = walk(fb, meth, found, n)
+            if "stuck" in r:
+                unfollowed[meth] = r["stuck"]
+                break
+            eff = [("%s of the name" % x[0] if x[2] else x[0], x[1]) for x in r["inserts"] if x[1] != 0] + \
+                  [("store", fr) for fr, _ in r["stores"] if fr != 0]
+            if eff:
+                writers.setdefault(meth, [])
+                writers[meth] += [(sorted(found), e) for e in eff if (sorted(found), e) not in writers[meth]][:2]
+    return writers, unfollowed
 
 
 def subsets(n=3):
